@@ -92,20 +92,23 @@ def repo_hash():
 
 
 def _prune_builds(keep_hash, variant):
-    """Keep scratch small: only the current build of each variant plus the 3 newest others."""
+    """Keep scratch small: drop builds of other tree states that are older than 2 hours, and never keep more
+    than 30 (several checks / builders may share the scratch area concurrently)."""
     try:
         ents = [os.path.join(SCRATCH, d) for d in os.listdir(SCRATCH) if d.startswith("b-")]
     except FileNotFoundError:
         return
-    ents = [d for d in ents if os.path.isdir(d)]
+    ents = [d for d in ents if os.path.isdir(d) and not os.path.basename(d).startswith("b-" + keep_hash)]
     ents.sort(key=lambda d: os.path.getmtime(d), reverse=True)
-    keep = 0
-    for d in ents:
-        if os.path.basename(d).startswith("b-" + keep_hash):
-            continue
-        keep += 1
-        if keep > 3:
+    now = time.time()
+    for i, d in enumerate(ents):
+        if i >= 30 or now - os.path.getmtime(d) > 7200:
             shutil.rmtree(d, ignore_errors=True)
+            try:
+                for v in ("asan", "plain"):
+                    os.unlink(os.path.join(SCRATCH, "lock-%s" % os.path.basename(d)[2:]))
+            except OSError:
+                pass
 
 
 def build_repo(variant="asan"):
